@@ -108,7 +108,7 @@ Qed.
 Print Assumptions undated_sorts_first.
 
 Example non_utf8_info_is_a_warning_for_list :
-  snd (run_oracle (print_trashinfo (mklist [] false false [] 0) ($"/") ($"/t/info/a.trashinfo")) [RErr UnicodeDecodeError]) = Done tt.
+  snd (run_oracle (print_trashinfo (mklist [] false false [] 0 None) ($"/") ($"/t/info/a.trashinfo")) [RErr UnicodeDecodeError]) = Done tt.
 Proof. vm_compute. reflexivity. Qed.
 Example directory_named_trashinfo_is_a_warning_for_restore :
   snd (run_oracle (read_trashed_file ($"/") true ($"/t/info/d.trashinfo")) [RErr (OSError 21)]) = Done None.
